@@ -37,6 +37,8 @@ import (
 //        proc = this binary re-executed as a child that calls the procedures of package stgutg in the order and with
 //               the Min clamps of stg-utg.go's test mode (copied below, without main's own sleeps) and prints what
 //               EstablishPDU returns; a child because ManageError ends the process
+//        hist = the long-history scenario: the child registers UE 0 and then calls EstablishPDU for it <p> times in a row
+//               (one UE's uplink NAS COUNT beyond 255 under one key); r must be 1
 // strings (imsi, mcc, mnc, k, opc, op, name, sd, gtp) travel as the hex of their octets, `-` = empty; gnbid = the octets
 // choices = per UE `rand:sqn:amf:ngksi:amfid:ueip:teid:upfip`, comma separated; dls = the downlink messages in order
 // xul/xrep/xexit = the uplink messages, reported sessions and exit status the implementation produced when the line was
@@ -45,8 +47,12 @@ import (
 //
 // Result: exit=<0|1|2|hang> banner=<0|1> ul=<hex,…> rep=<ip:teid:upf,…|x> peer=<ok|res-star|mac|undecodable|->
 func init() {
-	if os.Getenv("VERIF_CONVO_CHILD") != "" && len(os.Args) == 2 && os.Args[1] == "-t" {
-		convoChild()
+	if v := os.Getenv("VERIF_CONVO_CHILD"); v != "" && len(os.Args) == 2 && os.Args[1] == "-t" {
+		if v == "hist" {
+			convoHistChild()
+		} else {
+			convoChild()
+		}
 		os.Exit(0)
 	}
 	registerOp("convo", opConvo)
@@ -90,6 +96,26 @@ func convoChild() {
 	}
 	for i := 0; i < ue_deregistration_number; i++ {
 		stgutg.DeregisterUE(ueList[i], c.Configuration.Mnc, conn)
+	}
+	fmt.Println(">> All tests finished")
+	conn.Close()
+}
+
+// convoHistChild is the long-history scenario (mode hist): NG Setup, registration of UE 0, then ue_pdu calls of EstablishPDU
+// for that same UE, one after the other (no sleeps on this path). It is not a path of main: it drives one UE's uplink NAS
+// COUNT far beyond 255 under one key (sequence number wrap, overflow counter) through the real NASEncode.
+func convoHistChild() {
+	var c stgutg.Conf
+	c.GetConfiguration()
+	conn, err := tglib.ConnectToAmf(c.Configuration.AmfNgapIP, c.Configuration.StgNgapIP, c.Configuration.AmfNgapPort, c.Configuration.StgNgapPort)
+	stgutg.ManageError("Error in connection to AMF", err)
+	imsi := c.Configuration.Initial_imsi
+	stgutg.ManageNGSetup(conn, c.Configuration.Gnb_id, imsi, c.Configuration.Mnc, c.Configuration.Gnb_bitlength, c.Configuration.Gnb_name)
+	ue := stgutg.CreateUE(imsi, 0, c.Configuration.K, c.Configuration.OPC, c.Configuration.OP)
+	ue, _, _ = stgutg.RegisterUE(ue, c.Configuration.Mnc, c.Configuration.Mcc, conn)
+	for i := 0; i < c.Configuration.Test_ue_pdu_establishment; i++ {
+		ip, teid, upf := stgutg.EstablishPDU(c.Configuration.SST, c.Configuration.SD, ue, conn, c.Configuration.Gnb_gtp)
+		fmt.Printf("REPORT %d %s %d %s\n", i, hx(ip), teid, hx(upf))
 	}
 	fmt.Println(">> All tests finished")
 	conn.Close()
@@ -162,6 +188,8 @@ func convoExec(mode string, yaml string, preload [][]byte, respond func([]byte) 
 	env = append(env, "STGUTG_VERIF_FD=3")
 	if mode == "proc" {
 		env = append(env, "VERIF_CONVO_CHILD=1")
+	} else if mode == "hist" {
+		env = append(env, "VERIF_CONVO_CHILD=hist")
 	}
 	cmd.Env = env
 	cmd.SysProcAttr = &syscall.SysProcAttr{Pdeathsig: syscall.SIGKILL, Setpgid: true}
@@ -372,7 +400,7 @@ func opConvo(a []string) string {
 		panic(badArg{})
 	}
 	mode := a[1]
-	if (a[0] != "C01" && a[0] != "C02") || (mode != "bin" && mode != "proc") {
+	if (a[0] != "C01" && a[0] != "C02") || (mode != "bin" && mode != "proc" && mode != "hist") {
 		panic(badArg{})
 	}
 	cfg := convoConfig(a[2:19])
@@ -650,7 +678,19 @@ func convoDomain(e *emitter, prop string) {
 		add("proc", [5]int{1, 1, 1, 1, 1}, 3)
 		add("bin", full(1), 0)
 		add("bin", [5]int{2, 3, 1, 2, 2}, 0)
+		// the clamps live in main: count vectors with two or more of the dependent counts above / at / below N = 1 at the same
+		// time, through the real binary (a clamp that reads the wrong operand indexes ueList out of range or skips a procedure)
+		for _, c := range [][5]int{{1, 2, 0, 2, 1}, {1, 2, 2, 1, 2}, {1, 3, 1, 2, 0}, {1, 2, 3, 3, 3}, {1, 0, 2, 2, 2}, {1, 1, 2, 0, 2},
+			{1, 2, 2, 0, 0}, {1, 1, 0, 2, 1}} {
+			add("bin", c, 0)
+		}
+		// one UE, 270 establishment requests in a row: uplink NAS COUNT 0..271 under one key (SQN wrap at 256)
+		add("hist", [5]int{1, 270, 0, 0, 0}, 0)
 		if e.thorough() {
+			for _, c := range [][5]int{{2, 3, 3, 3, 3}, {2, 1, 3, 3, 0}, {2, 3, 1, 3, 3}, {2, 4, 0, 1, 4}, {2, 2, 3, 1, 1}, {2, 0, 3, 3, 3}} {
+				add("bin", c, 0)
+			}
+			add("hist", [5]int{1, 600, 0, 0, 0}, 0)
 			add("bin", full(3), 0)
 			add("bin", [5]int{6, 4, 7, 2, 6}, 0)
 			add("bin", full(1), 2)
